@@ -148,8 +148,9 @@ CHECKS = {
    ref="DESIGN.md §5 C08"),
  "C04": dict(
    text="Lean theorems over a concurrent store LTS (chunked record writes, index publish after the last chunk, readers mapping files at arbitrary moments, remap test, shard guards, merge re-point before unlink, "
-        "reader pool): no panic state is reachable (and one IS reachable with the old remap test), pool accounting, linearizability via linearization points. Tied to the real store by forced schedules "
-        "(schedule points + pause before a chosen write(2)) for the windows named in the property and by free-running stress with an exact per-key linearizability search, hang watchdog and pool check.",
+        "reader pool): no panic state is reachable (and one IS reachable with the old remap test), pool accounting, linearizability via linearization points, no deadlock, bounded own steps. Tied to the real store by "
+        "(a) a step-by-step correspondence of that LTS (run by the Lean driver) with real threads parked at the crate's schedule points and before chosen write(2) calls: parked / finished-with-result / blocked per move, final index, files, active id, pool; "
+        "(b) hand-written forced schedules for the windows named in the property; (c) free-running stress with an exact per-key linearizability search, hang watchdog and pool check.",
    note=COMMON_NOTE + "PARTIAL: memory-model effects below the lock/atomic abstraction (DashMap, crossbeam ArrayQueue, parking_lot), mmap coherence and OS scheduler fairness are trusted; the schedule space of the real code is sampled.",
    technique="Lean 4 proof (invariants + linearization points on a labelled transition system) + forced schedules and linearizability-checked stress",
    ref="DESIGN.md §5 C04"),
